@@ -346,6 +346,9 @@ int main (void)
     char *f[4096];
     signal (SIGSEGV, on_crash); signal (SIGABRT, on_crash); signal (SIGBUS, on_crash);
     signal (SIGFPE, on_crash); signal (SIGILL, on_crash);
+    /* a case that does not return (termination is part of C06): SIGALRM ends it like a crash, CRASH:sig14 is its result */
+    signal (SIGALRM, on_crash);
+    unsigned case_timeout = getenv ("DRV_CASE_TIMEOUT") ? (unsigned) atoi (getenv ("DRV_CASE_TIMEOUT")) : 5;
     if (getenv ("DRV_LINEBUF")) setvbuf (stdout, NULL, _IOLBF, 0);
     { const char *pm = getenv ("DRV_PLACE"); place_mode = !pm ? 0 : !strcmp (pm, "tight") ? 1 : !strcmp (pm, "guard_end") ? 2 : !strcmp (pm, "guard_start") ? 3 : 0; }
 #ifdef HAVE_IDNKIT
@@ -357,6 +360,7 @@ int main (void)
         for (char *p = strtok (line, " \n"); p && nf < 4096; p = strtok (NULL, " \n")) f[nf++] = p;
         if (nf == 0) continue;
         char k = f[0][0];
+        alarm (case_timeout);
         if (k == 'A') { run_history (f + 1, nf - 1); continue; }
         if (k == 'L' || k == 'D' || k == '4' || k == '6' || k == 'P') {
             size_t n = unhex (f[1], a_buf);
